@@ -4,6 +4,7 @@ import (
 	"context"
 	"errors"
 	"fmt"
+	"os"
 	"time"
 
 	"github.com/cep21/circuit/v4"
@@ -27,8 +28,10 @@ func (p panicAt) ErrFailure(context.Context, time.Time, time.Duration)    { p.hi
 func (p panicAt) ErrTimeout(context.Context, time.Time, time.Duration)    { p.hit("ErrTimeout") }
 func (p panicAt) ErrBadRequest(context.Context, time.Time, time.Duration) { p.hit("ErrBadRequest") }
 func (p panicAt) ErrInterrupt(context.Context, time.Time, time.Duration)  { p.hit("ErrInterrupt") }
-func (p panicAt) ErrConcurrencyLimitReject(context.Context, time.Time)    { p.hit("ErrConcurrencyLimitReject") }
-func (p panicAt) ErrShortCircuit(context.Context, time.Time)              { p.hit("ErrShortCircuit") }
+func (p panicAt) ErrConcurrencyLimitReject(context.Context, time.Time) {
+	p.hit("ErrConcurrencyLimitReject")
+}
+func (p panicAt) ErrShortCircuit(context.Context, time.Time) { p.hit("ErrShortCircuit") }
 
 type panicAtFb struct{ kind string }
 
@@ -37,9 +40,13 @@ func (p panicAtFb) hit(k string) {
 		panic("collector failed in " + k)
 	}
 }
-func (p panicAtFb) Success(context.Context, time.Time, time.Duration)    { p.hit("fallback Success") }
-func (p panicAtFb) ErrFailure(context.Context, time.Time, time.Duration) { p.hit("fallback ErrFailure") }
-func (p panicAtFb) ErrConcurrencyLimitReject(context.Context, time.Time) { p.hit("fallback ErrConcurrencyLimitReject") }
+func (p panicAtFb) Success(context.Context, time.Time, time.Duration) { p.hit("fallback Success") }
+func (p panicAtFb) ErrFailure(context.Context, time.Time, time.Duration) {
+	p.hit("fallback ErrFailure")
+}
+func (p panicAtFb) ErrConcurrencyLimitReject(context.Context, time.Time) {
+	p.hit("fallback ErrConcurrencyLimitReject")
+}
 
 type panicAtCirc struct{ kind string }
 
@@ -148,6 +155,44 @@ func panicProbe(c *hc.Case, tags map[string]bool) {
 		if a, b := x.ConcurrentCommands(), x.ConcurrentFallbacks(); a != 0 || b != 0 {
 			c.Viol = append(c.Viol, hc.Violation{Clause: "C04: once all calls have returned, by normal return or by panic, ConcurrentCommands and ConcurrentFallbacks read zero",
 				Detail: fmt.Sprintf("after a call that returned by a panic raised in %s (recovered by its caller): ConcurrentCommands=%d ConcurrentFallbacks=%d on an idle circuit", pt.kind, a, b), AtOp: len(c.Ops)})
+		}
+	}
+}
+
+// nilPanicProbe: "every panic value (including nil-like ...)": with GODEBUG=panicnil=1 (the pre-1.21 behaviour a
+// program may opt into) panic(nil) carries a nil value, and recover() returns nil for it -- code that re-raises
+// only "if r != nil" swallows it.  The panic still reaches the caller: Execute does not return normally.
+func nilPanicProbe(c *hc.Case, tags map[string]bool) {
+	old, had := os.LookupEnv("GODEBUG")
+	os.Setenv("GODEBUG", "panicnil=1")
+	defer func() {
+		if had {
+			os.Setenv("GODEBUG", old)
+		} else {
+			os.Unsetenv("GODEBUG")
+		}
+	}()
+	var cfg circuit.Config
+	cfg.Execution.Timeout = -1
+	x := circuit.NewCircuitFromConfig("nil-panic", cfg)
+	for _, where := range []string{"run", "fallback"} {
+		returned := false
+		func() {
+			defer func() { _ = recover() }()
+			_ = x.Execute(context.Background(), func(context.Context) error {
+				if where == "run" {
+					panic(nil)
+				}
+				return errors.New("run")
+			}, func(context.Context, error) error { panic(nil) })
+			returned = true
+		}()
+		tags["nil-panic:"+where] = true
+		if returned {
+			c.Viol = append(c.Viol, hc.Violation{Clause: "C10: a panic reaches the caller with the same panic value", Detail: "GODEBUG=panicnil=1, panic(nil) in the " + where + " function: Execute returned normally", AtOp: len(c.Ops)})
+		}
+		if a, b := x.ConcurrentCommands(), x.ConcurrentFallbacks(); a != 0 || b != 0 {
+			c.Viol = append(c.Viol, hc.Violation{Clause: "C10: afterwards both in-flight gauges are back to their previous values", Detail: fmt.Sprintf("after panic(nil) in the %s function: gauges %d %d", where, a, b), AtOp: len(c.Ops)})
 		}
 	}
 }
